@@ -147,6 +147,38 @@ def check_node_errors(ctx, s, rng, case, flags=None):
         if got != [exp] or fmt != [{"line": exp[0], "column": exp[1]}]:
             ctx.violation("node-error-location", {"text": s, "node": n.kind, "start": n.loc.start, "reported": got, "formatted": fmt, "true": exp}, case)
             return
+    # an error that blames a node of this document AND carries an explicit source with positions of its own (what located_error
+    # builds when a resolver raises a syntax error from parsing some other text): the reported location is the explicit one,
+    # rendering must not fail, and what is rendered should be the line that the reported location names
+    for n in rng.sample(nodes, min(3, len(nodes))):
+        if n.loc is None:
+            continue
+        other = rng.choice([s[::-1], 'x\ny\n' + s, s + '\n\n?', 'one line', '\r\n'.join(['ab'] * rng.randint(1, 7)), ''])
+        if not other:
+            continue
+        p = rng.randrange(len(other))
+        if R.inside_crlf(other, p):
+            continue
+        ctx.count("node_errors_with_explicit_source_checked")
+        exp = R.line_col(other, p)
+        try:
+            err = GraphQLError('blamed', nodes=[n], source=Source(other, 'other'), positions=[p])
+            got = [tuple(l) for l in err.locations or []]
+            fmt = err.formatted.get('locations')
+            text = str(err)
+        except Exception as e:  # noqa: BLE001
+            ctx.violation(f"render-crash:{type(e).__name__}", {"text": s, "other": other, "position": p, "node": n.kind, "exception": repr(e)[:200]}, case)
+            return
+        if got != [exp] or fmt != [{"line": exp[0], "column": exp[1]}]:
+            ctx.violation("explicit-position-location", {"text": s, "other": other, "position": p, "reported": got, "formatted": fmt, "true": exp}, case)
+            return
+        if f"other:{exp[0]}:{exp[1]}" not in text.split("\n"):
+            nl = R.line_col(s, n.loc.start)
+            mech = "rendered-location-differs-from-reported-location"
+            if f"GraphQL request:{nl[0]}:{nl[1]}" in text.split("\n"):
+                mech += ":nodes-take-precedence-over-explicit-source"
+            ctx.violation(mech, {"text": s, "other": other, "position": p, "reported": got, "rendered": text[-200:]}, case)
+            return
 
 
 def check_syntax_error(ctx, s, rng, case, flags=None):
